@@ -88,6 +88,8 @@ class Volume:
     dir_mode: str = "chain"  # "chain" | "run"
     dir_sectors: int = 1
     dir_first: bool = False  # allocate the directory before the files (so that file data can be the last thing on the disc)
+    stale: int = 0  # left-over entries BEHIND the end marker (files deleted earlier): well-formed sample entries that
+    # point at live chains under other names; the table ends at the marker, so nothing of them may show (S148)
 
 
 @dataclass
@@ -207,7 +209,7 @@ def serialize(disc: Disc, rng, shapes=("contiguous", "reversed", "random", "sort
             pre_dsecs = None
             vol_files = []
             if v.dir_first:
-                nd0 = max(v.dir_sectors, nsectors(24 * (len(v.files) + 1)))
+                nd0 = max(v.dir_sectors, nsectors(24 * (len(v.files) + 1 + v.stale)))
                 run_ok = v.dir_mode == "run"
                 if run_ok:
                     try:
@@ -235,6 +237,13 @@ def serialize(disc: Disc, rng, shapes=("contiguous", "reversed", "random", "sort
                     part[s * SECTOR : (s + 1) * SECTOR] = padded[k * SECTOR : (k + 1) * SECTOR]
                 entries += akai_name(f.name) + bytes(4) + bytes([f.ftype]) + len(data).to_bytes(3, "little") + struct.pack("<H", secs[0]) + bytes(2)
             table = bytes(entries) + bytes(8) + struct.pack("<H", 0xD747) + bytes(14)
+            if v.stale and entries:
+                live = [bytes(entries[k:k + 24]) for k in range(0, len(entries), 24)]
+                for k in range(v.stale):
+                    e = bytearray(live[k % len(live)])
+                    e[0:12] = akai_name(f"OLD {k}")
+                    table += bytes(e)
+                info["stale_entries"] = info.get("stale_entries", 0) + v.stale
             nd = max(v.dir_sectors, nsectors(len(table)))
             if pre_dsecs is not None:
                 dsecs = pre_dsecs
@@ -380,7 +389,8 @@ def random_disc(rng, small=True) -> Disc:
                 rng.shuffle(files)
             # sibling volumes may carry the same name (S78): they are told apart as NAME, NAME (2)
             vname = vols[0].name if vols and rng.random() < 0.3 else f"VOL {pi}{vi}"
-            vols.append(Volume(vname, files, s3000=rng.random() < 0.5, dir_mode=rng.choice(["chain", "chain", "run"]), dir_sectors=rng.choice([1, 1, 2])))
+            vols.append(Volume(vname, files, s3000=rng.random() < 0.5, dir_mode=rng.choice(["chain", "chain", "run"]), dir_sectors=rng.choice([1, 1, 2]),
+                               stale=rng.choice([0, 0, 1, 3])))
         need = HEADER_SECTORS + 4 + sum(v.dir_sectors + 2 + sum(nsectors(len(f.content())) for f in v.files) for v in vols)
         # the volume table may have holes (deleted volumes) and need not start at slot 0
         slots = sorted(rng.sample(range(rng.choice([len(vols) + 2, 12, VOL_ENTRIES])), len(vols))) if vols and rng.random() < 0.5 else None
